@@ -306,6 +306,7 @@ def run(ctx):
                    what=f'rule `{name}` builds an ill-formed plan: {cex["problem"][:160]}')
     subquery_clauses(ctx, prog)
     apply_price_rule(ctx, prog)
+    optimizer_always_runs(ctx, prog)
 
 
 def subquery_clauses(ctx, prog):
@@ -435,3 +436,21 @@ def apply_price_rule(ctx, prog):
            what='the cost of an Apply is `build + costs(left) + rows(left) * costs(right)`: with a left side estimated at 0 rows it is '
                 'cheaper than every join, the optimizer keeps the Apply (or the Filter over Exists/In it came from, priced the same way) '
                 'and the executor builder panics')
+
+
+def optimizer_always_runs(ctx, prog):
+    """C17-R5: no plan skips the rewrite stages"""
+    R5 = 'C17-R5'
+    ctx.rule(R5, 'only the rewrite stages make sub-queries, computed limits and the like executable, and a plan may be stored and built later '
+                 '(CREATE VIEW keeps its body): Optimizer::optimize has no return that skips optimize_stage for some kind of statement')
+    b = prog.body('planner::optimizer::Optimizer::optimize')
+    if not ctx.anchor(R5, 'planner::optimizer::Optimizer::optimize', b is not None):
+        return
+    ctx.functions_analysed.add(b.name)
+    st = {c.bb for c in b.calls if (c.fn or '').endswith('Optimizer::optimize_stage')}
+    if ctx.anchor(R5, 'optimize: optimize_stage calls', st):
+        early = sorted(set(b.return_blocks()) & b.reachable_from([0], avoid=st))
+        ctx.ob(R5, 'optimize·every-return-after-the-stages', not early,
+               f'optimize_stage at blocks {sorted(st)}; returns reachable without any stage: {early}', [site(b, x) for x in (early or sorted(st)[:1])],
+               what='Optimizer::optimize returns some statements unoptimized: a CREATE VIEW body with a sub-query or a computed LIMIT is stored '
+                    'as bound and every later statement over the view panics in the executor builder')
